@@ -8,6 +8,7 @@ import (
 	"runtime/debug"
 	"strings"
 	"sync"
+	"sync/atomic"
 	"testing"
 
 	"github.com/openziti/storage/ast"
@@ -240,8 +241,73 @@ memTypes:
 	return parsed, typing, nil
 }
 
+// c10ConcurrentTexts are parsed alone first and then from many goroutines at once: every text is accepted or
+// rejected as before and yields the same typed query (compared through its String rendering).
+var c10ConcurrentTexts = []string{`sa = "a" and ia > 1 sort by sa limit 13`, `sb != "b" or fa <= 2.5 skip 2 limit 11`, `anyOf(roles) in ["a", "b"] sort by ia desc`,
+	`count(places) > 1 and not (ba)`, `tags.k = 3 limit 7`, `isEmpty(peers) or boss.sa contains "o"`, `ia between 1 and 10 and sa != null`,
+	`sa = `, `limit limit`, `(sa = "x"`, `ta > datetime(2020-01-01T00:00:00Z) skip 1`, `not isEmpty(from places where name = "Hotel") limit none`}
+
+func runC10Concurrent() error {
+	e := c10Environment()
+	type outcome struct {
+		ok  bool
+		str string
+	}
+	parse := func(text string) (o outcome) {
+		defer func() {
+			if p := recover(); p != nil {
+				o = outcome{false, fmt.Sprintf("panic: %v", p)}
+			}
+		}()
+		q, err := ast.Parse(e.schema.People, text)
+		if err != nil {
+			return outcome{false, "rejected"}
+		}
+		lim, skip := "-", "-"
+		if l := q.GetLimit(); l != nil {
+			lim = fmt.Sprint(*l)
+		}
+		if s := q.GetSkip(); s != nil {
+			skip = fmt.Sprint(*s)
+		}
+		var sorts []string
+		for _, f := range q.GetSortFields() {
+			sorts = append(sorts, fmt.Sprintf("%s:%v", f.Symbol(), f.IsAscending()))
+		}
+		return outcome{true, fmt.Sprintf("%v | sort %v | skip %s | limit %s", q, sorts, skip, lim)}
+	}
+	alone := make([]outcome, len(c10ConcurrentTexts))
+	for i, text := range c10ConcurrentTexts {
+		alone[i] = parse(text)
+	}
+	var wg sync.WaitGroup
+	var firstErr atomic.Value
+	for g := 0; g < 12; g++ {
+		wg.Add(1)
+		go func(g int) {
+			defer wg.Done()
+			for round := 0; round < 60 && firstErr.Load() == nil; round++ {
+				i := (g*5 + round) % len(c10ConcurrentTexts)
+				if got := parse(c10ConcurrentTexts[i]); got != alone[i] {
+					firstErr.CompareAndSwap(nil, fmt.Errorf("%q parsed beside other requests: %+v; parsed alone: %+v", c10ConcurrentTexts[i], got, alone[i]))
+				}
+			}
+		}(g)
+	}
+	wg.Wait()
+	if err := firstErr.Load(); err != nil {
+		return err.(error)
+	}
+	return nil
+}
+
 func runC10(c c10Case) kit.Result {
 	res := kit.Result{Classes: []string{"kind:" + c.Kind}}
+	if c.Kind == "concurrent-parse" {
+		res.NonTrivial = true
+		res.Err = runC10Concurrent()
+		return res
+	}
 	parsed, typing, viol := totalityOracleOpt(c.Text, c.Kind != "tokens")
 	if viol != nil {
 		res.Err = viol
@@ -510,6 +576,12 @@ func exhaustiveC10(maxLen int) func(yield func(c c10Case) bool) {
 		}
 		if !rec(nil, maxLen) {
 			return
+		}
+		// parsing from several goroutines at once (the parser keeps pooled lexers and parsers)
+		for i := 0; i < 5; i++ {
+			if !yield(c10Case{Kind: "concurrent-parse", Text: fmt.Sprintf("round %d", i)}) {
+				return
+			}
 		}
 		// filters that mention many distinct symbols (nested in parentheses, which keeps the parser fast) before or
 		// after a set function, a dotted path or a sub-query
